@@ -64,6 +64,9 @@ func runHistory(R *vlib.Out, c *histCfg, hist []int, record bool) (sig, detail s
 			ev.Do(w)
 			vsched.Settle()
 			outs := w.take()
+			if *vlib.Verbose {
+				fmt.Printf("  step %d %s -> [%s] logged=%v t=%v\n", i, ev.Name, outsStr(outs), w.s.IsLogged(), vsched.NowOffset())
+			}
 			s, d := m.Step(w, ev, outs)
 			if record {
 				fp := m.Key() + "|" + w.fingerprint()
